@@ -3,6 +3,7 @@ package file
 import (
 	"bytes"
 	"encoding/json"
+	"errors"
 	"fmt"
 	"strconv"
 	"time"
@@ -23,10 +24,7 @@ func ParseJWT(data []byte) (*JWT, error) {
 		return nil, fmt.Errorf("expected 3 parts, got %d", len(parts))
 	}
 
-	jwt := JWT{
-		Header:  make(map[string]any),
-		Payload: make(map[string]any),
-	}
+	var jwt JWT
 
 	hdr, err := util.DecodeAnyBase64(parts[0])
 	if err != nil {
@@ -35,13 +33,20 @@ func ParseJWT(data []byte) (*JWT, error) {
 	if err = json.Unmarshal(hdr, &jwt.Header); err != nil {
 		return nil, fmt.Errorf("json.Unmarshal(header): %w", err)
 	}
+	if jwt.Header == nil {
+		// json.Unmarshal accepts the JSON value null and leaves the map untouched
+		return nil, errors.New("header is not a JSON object")
+	}
 
 	payload, err := util.DecodeAnyBase64(parts[1])
 	if err != nil {
 		return nil, fmt.Errorf("util.DecodeAnyBase64(payload): %w", err)
 	}
 	if err = json.Unmarshal(payload, &jwt.Payload); err != nil {
-		return nil, fmt.Errorf("json.Unmarshal(header): %w", err)
+		return nil, fmt.Errorf("json.Unmarshal(payload): %w", err)
+	}
+	if jwt.Payload == nil {
+		return nil, errors.New("payload is not a JSON object")
 	}
 
 	jwt.Signature, err = util.DecodeAnyBase64(parts[2])
